@@ -1,6 +1,7 @@
 package method_evaluator
 
 import (
+	"fmt"
 	"ti/base"
 )
 
@@ -36,6 +37,10 @@ func (h *hashMergeStrategy) evaluate(m *MethodEvaluator) error {
 		return err
 	}
 
+	if len(evaluatedArgs) == 0 {
+		return fmt.Errorf("too few arguments for Hash.merge")
+	}
+
 	hashT := m.evaluatedObjectT.DeepCopy()
 
 	hashT.MergeHash(evaluatedArgs[0])
@@ -67,6 +72,10 @@ func (h *hashDestructionMergeStrategy) evaluate(m *MethodEvaluator) error {
 	err = checkAndPropagateArgs(m, "Hash", methodT, evaluatedArgs)
 	if err != nil {
 		return err
+	}
+
+	if len(evaluatedArgs) == 0 {
+		return fmt.Errorf("too few arguments for Hash.merge!")
 	}
 
 	hashT := m.evaluatedObjectT
